@@ -61,7 +61,9 @@ Definition static_end (s : ost) (o : rop) : Prop :=
   | RReload => False
   | _ => True
   end.
-(* freshly sampled values are already complete, so the fill-in leaves them alone *)
+(* what the sampling loop returns has been through ensure_active_values already (Rand.random_values, mirroring the repaired
+   Oracle._random_values): the hypothesis says that running it a second time, as create_trial -> _record_values does, changes
+   nothing (idempotence of the fill-in on its own output) *)
 Definition sample_complete (s : ost) : Prop :=
   ∀ v seed seed' k, random_values samp draw max_collisions (S (S max_collisions)) (s_space (a_osp (algo s))) (a_tried (algo s)) seed 0 = (Some v, seed') →
      (ensure_go draw (s_space (a_osp (algo s))) (s_space (a_osp (algo s))) v k).1 = v.
